@@ -34,6 +34,10 @@ const (
 	bucketBytes = 44 // = int32 + uint64 + hash.SHA256HashSize
 )
 
+// maxBucketAttempts bounds the search for k distinct buckets along the hash chain of a key, see bucketIndices.
+// k distinct buckets are normally found in k (seldom a few more) steps.
+const maxBucketAttempts = 64
+
 // ErrDecodeNotPossible is returned when the Iblt cannot be decoded.
 var (
 	ErrDecodeNotPossible = errors.New("decode failed")
@@ -206,7 +210,21 @@ func (i *Iblt) bucketIndices(hash uint64) []uint32 {
 	hashKeyBytes, nextBytes := make([]byte, 8), make([]byte, 4)
 	byteOrder.PutUint64(hashKeyBytes, hash)
 	next := murmur3.SeedSum32(i.hk, hashKeyBytes)
-	for len(indices) < int(i.k) {
+	for attempt := 0; len(indices) < int(i.k); attempt++ {
+		if attempt == maxBucketAttempts {
+			// The chain of hashes is a function of its previous value, so it ends in a cycle. For some keys that cycle is
+			// short and visits fewer than k buckets (e.g. the chain 4107318918 -> 2685067771 -> 1532747441 -> 4107318918),
+			// which would make this loop run forever. Take the buckets that follow the last one instead.
+			bucketID := next % uint32(i.numBuckets())
+			for len(indices) < int(i.k) {
+				bucketID = (bucketID + 1) % uint32(i.numBuckets())
+				if !bucketUsed[bucketID] {
+					indices = append(indices, bucketID)
+					bucketUsed[bucketID] = true
+				}
+			}
+			break
+		}
 		bucketID := next % uint32(i.numBuckets())
 		if !bucketUsed[bucketID] {
 			indices = append(indices, bucketID)
